@@ -257,4 +257,6 @@ def run(tier):
                          'range tests of X and Y against the field prime and the curve equation must each be a conjunct of the decoding verdict'))
     oblig.run_conjuncts(chk, conj, 'ec-conjunct')
     chk.floor('constants', sum(1 for o in chk.obls if o['rule'] == 'curve-constants'), 40)
+    from .. import lints
+    lints.length_is_boolean(chk, ['src/ec/'])
     return chk.finish()
